@@ -295,7 +295,16 @@ def sparse_cases(draw):
     op = draw(st.sampled_from(("c1", "c01", "c014")))
     deg = 6 if op in ("c1", "c01") else 12
     sa, a = draw(elem(deg))
-    cs = [draw(elem(2)) for _ in range(3)]
+    cs = [list(draw(elem(2))) for _ in range(3)]
+    # relations between two of the coefficients (a shortcut on c1 + c4, c0 == c1, ... is right for independent values)
+    rel = draw(st.sampled_from(("indep", "indep", "indep", "equal", "negated", "conjugate", "zero-pair")))
+    if rel != "indep":
+        i, j = draw(st.sampled_from(((0, 1), (1, 2), (0, 2))))
+        v = tuple(cs[i][1])
+        w = {"equal": v, "negated": F.fq2_neg(v), "conjugate": (v[0], (Q - v[1]) % Q), "zero-pair": F.FQ2_ZERO}[rel]
+        cs[j] = ["rel-" + rel, w]
+        if rel == "zero-pair":
+            cs[i] = ["rel-zero-pair", F.FQ2_ZERO]
     return {"op": op, "a": a, "sa": sa, "c": [x[1] for x in cs], "sc": [x[0] for x in cs]}
 
 
